@@ -27,6 +27,9 @@ F = "c/tetrahedron_method.c"
 SH4 = {"vertices_omegas": lambda P: [4]}
 R = z3.RealSort()
 spec_n = z3.Function("spec_n", z3.IntSort(), R, R, R, R, R, R)   # (i, omega, v0..v3): value of _n in region i
+spec_g = z3.Function("spec_g", z3.IntSort(), R, R, R, R, R, R)
+spec_J = z3.Function("spec_J", z3.IntSort(), z3.IntSort(), R, R, R, R, R, R)   # (i, ci, omega, v0..v3)
+spec_I = z3.Function("spec_I", z3.IntSort(), z3.IntSort(), R, R, R, R, R, R)
 QUARTER = z3.RealVal("1/4")
 
 
@@ -145,13 +148,13 @@ def generic_contracts():
                                     ("range:n in [0,1]", z3.And(V.ret >= 0, V.ret <= 1))] + _exact(V, 0, 1),
                  facts=None)
     g = Contract(F, "_g", shapes=SH4, requires=_req, after=_capture("_g"), hints=_hints("_g"),
-                 ensures=lambda V: [("range:g >= 0", V.ret >= 0)] + _exact(V, 0, 0))
+                 ensures=lambda V: [("def", V.ret == spec_g(V.p.i, *_args(V))), ("range:g >= 0", V.ret >= 0)] + _exact(V, 0, 0))
     J = Contract(F, "_J", shapes=SH4, requires=_req, after=_capture("_J"), hints=_hints("_J"),
-                 ensures=lambda V: [("range:J >= 0", V.ret >= 0),
+                 ensures=lambda V: [("def", V.ret == spec_J(V.p.i, V.p.ci, *_args(V))), ("range:J >= 0", V.ret >= 0),
                                     ("range:J*n <= 1/4", V.ret * spec_n(V.p.i, *_args(V)) <= QUARTER)] + _exact(V, 0, QUARTER),
                  facts=_n_def)
     Ic = Contract(F, "_I", shapes=SH4, requires=lambda V: _req(V, "_I"), after=_capture("_I"), hints=_hints("_I"),
-                  ensures=lambda V: [("range:I >= 0", V.ret >= 0)] + _exact(V, 0, 0))
+                  ensures=lambda V: [("def", V.ret == spec_I(V.p.i, V.p.ci, *_args(V))), ("range:I >= 0", V.ret >= 0)] + _exact(V, 0, 0))
     return {"_n": n, "_g": g, "_J": J, "_I": Ic}
 
 
@@ -240,6 +243,17 @@ def _ladder_contract(fch, code, tag, requires, inv, ens, capture=None):
                     use_contracts={"sort_omegas", "_n", "_g", "_J", "_I"}, ensures=ens, split=2)
 
 
+C_LADDER = {}
+
+
+def _cap_ladder(fch):
+    def capture(ex, Vh, Vx):
+        v = Vx.a.v
+        C_LADDER.setdefault(fch, []).append((list(Vx.st.pc), z3.simplify(Vx.v.sum - Vh.v.sum),
+                                             [v[j] for j in range(4)], Vx.p.omega, Vx.v.ci, Vx))
+    return capture
+
+
 def weight_contracts():
     cs = []
 
@@ -250,8 +264,8 @@ def weight_contracts():
     def invI(V):
         i, s = V.v.i, V.v.sum
         return [("i-range", z3.And(i >= 0, i <= 24)), ("sum-range", s >= 0)]
-    cs.append(_ladder_contract("J", 74, "[J]", None, invJ, lambda V: [("W_J in [0,1]", z3.And(V.ret >= 0, V.ret <= 1))]))
-    cs.append(_ladder_contract("I", 73, "[I]", None, invI, lambda V: [("W_I >= 0", V.ret >= 0)]))
+    cs.append(_ladder_contract("J", 74, "[J]", None, invJ, lambda V: [("W_J in [0,1]", z3.And(V.ret >= 0, V.ret <= 1))], capture=_cap_ladder("J")))
+    cs.append(_ladder_contract("I", 73, "[I]", None, invI, lambda V: [("W_I >= 0", V.ret >= 0)], capture=_cap_ladder("I")))
     return cs
 
 
